@@ -131,6 +131,12 @@ ODD = [{"op": "tag", "pid": "p", "cid": {"of": 0, "upper": True}}, {"op": "tag",
        {"op": "dmeta", "pid": "never-stored", "fmt": None}, {"op": "hexd", "pid": "p", "algo": "sm3"},
        {"op": "hexd", "pid": "never-stored", "algo": "md5"}, {"op": "retrieve", "pid": "never-stored"},
        {"op": "rmeta", "pid": "p", "fmt": "no-such-format"}]
+# a cid that is no digest and exactly fills the shard directories (depth 2 x width 2: "abcd" is stored as the FILE refs/cids/ab/cd)
+# followed by a longer one that needs a DIRECTORY of that name: the second call cannot succeed, and must still return
+NESTED = [({"op": "tag", "pid": "n", "cid": {"raw": "abcd"}}, {"op": "tag", "pid": "m", "cid": {"raw": "abcd0123456789"}}),
+          ({"op": "tag", "pid": "n", "cid": {"raw": "abcd0123456789"}}, {"op": "tag", "pid": "m", "cid": {"raw": "abcd"}}),
+          ({"op": "tag", "pid": "n", "cid": {"raw": "ab"}}, {"op": "store", "pid": "m", "c": 0}),
+          ({"op": "tag", "pid": "n", "cid": {"raw": "abcd"}}, {"op": "delete", "pid": "n"})]
 REGULAR = [{"op": "store", "pid": "p", "c": 0}, {"op": "tag", "pid": "q", "cid": {"of": 0}}, {"op": "delete", "pid": "p"}]
 # the same identifiers through TWO FileHashStore instances opened on one directory in one process (e.g. two factory calls)
 INST2 = [({"op": "store", "pid": "p", "c": 0}, {"op": "delete", "pid": "p"}), ({"op": "store", "pid": "p", "c": 0}, {"op": "store", "pid": "q", "c": 0}),
@@ -148,6 +154,9 @@ def _extra_cases(tier):
             yield dict(BASE, docs=docs, family="odd", start_name=sname, start=c07.STARTS[sname], calls=[odd])
             for reg in (REGULAR[:1] if tier == "quick" else REGULAR):
                 yield dict(BASE, docs=docs, family="odd", start_name=sname, start=c07.STARTS[sname], calls=[odd, reg])
+    for sname in ("empty", "p=X"):
+        for a, b in NESTED:
+            yield dict(BASE, docs=docs, family="odd", start_name=sname, start=c07.STARTS[sname], calls=[a, b], all_followups=True)
     for sname in ("empty", "p=X", "p=X,q=X"):
         for a, b in INST2:
             yield dict(BASE, docs=docs, family="inst2", start_name=sname, start=c07.STARTS[sname], calls=[a, b])
@@ -184,6 +193,12 @@ def followups(calls):
 def judge(ctx, world, desc, calls, ex, sig, follow=True, extra_follow=()):
     """ex must have been run with keep_dir=True."""
     try:
+        if ex.deadlock and getattr(ex, "livelock", False):
+            spinning = [(i, p) for i, st_, w, p in ex.deadlock if st_ == "spinning"]
+            ctx.violation("call-never-returns", f"{desc}: after {sched.MAX_STEPS} scheduling points the calls of threads {spinning} "
+                          f"(thread, pending operation) still run - they repeat the same operations for ever; outcomes of the "
+                          f"others: {ex.outcomes}", dict(sig, failure="livelock"))
+            return
         if ex.deadlock:
             blocked = [(i, w) for i, st_, w, p in ex.deadlock if st_ == "blocked"]
             ctx.violation("deadlock", f"{desc}: threads {blocked} are blocked and no thread is runnable; outcomes of the "
